@@ -167,6 +167,40 @@ def run_case(case, w):
                     bad.append(("net:sequence:%s" % ("pernic" if form else "total"),
                                 "step %d of %r: got %r expected %r" % (step, case[1], freeze(got), want)))
         psutil.net_io_counters.cache_clear()
+    elif k == "net-many":
+        # scale: a table much longer than any read buffer (a container host with hundreds of veth pairs)
+        n = case[1]
+        ifs = [("veth%04x" % i, [10 ** 11 + 1000 * i + j for j in range(16)]) for i in range(n)]
+        w.set_file("/proc/net/dev", net_file(ifs))
+        exp = {name: {f: cols[NET_MAP[f]] for f in NET_FIELDS} for name, cols in ifs}
+        got = outcome(psutil.net_io_counters, pernic=True, nowrap=False)
+        if got[0] != "ok" or recs(got[1], NET_FIELDS) != exp:
+            bad.append(("net:many-interfaces:pernic", "%d interfaces listed, %s returned" % (n, len(got[1]) if got[0] == "ok" else repr(got))))
+        tot = {f: sum(e[f] for e in exp.values()) for f in NET_FIELDS}
+        got = outcome(psutil.net_io_counters, pernic=False, nowrap=False)
+        if got[0] != "ok" or rec(got[1], NET_FIELDS) != tot:
+            bad.append(("net:many-interfaces:total", "total over %d interfaces: got %r expected %r" % (n, freeze(got), tot)))
+    elif k == "disk-many":
+        n = case[1]
+        for d in list(w.children.get("/sys/block", ())):
+            w.remove("/sys/block/" + d)
+        lines, exp = [], {}
+        for i in range(n):
+            name = "dm-%d" % i
+            vals = [10 ** 9 + 97 * i + j for j in range(11)]
+            lines.append(disk_line(i, name, vals, 20))
+            exp[name] = disk_ref(i, vals, 20)
+            w.mkdir("/sys/block/" + name)
+        w.set_file("/proc/diskstats", b"".join(lines))
+        got = outcome(psutil.disk_io_counters, perdisk=True, nowrap=False)
+        if got[0] != "ok" or recs(got[1], DISK_FIELDS) != exp:
+            bad.append(("disk:many-devices:perdisk", "%d devices listed, %s returned" % (n, len(got[1]) if got[0] == "ok" else repr(got))))
+        tot = {f: sum(e[f] for e in exp.values()) for f in DISK_FIELDS}
+        got = outcome(psutil.disk_io_counters, perdisk=False, nowrap=False)
+        if got[0] != "ok" or rec(got[1], DISK_FIELDS) != tot:
+            bad.append(("disk:many-devices:total", "total over %d disks wrong" % n))
+        for i in range(n):
+            w.remove("/sys/block/dm-%d" % i)
     elif k == "net-swap":
         # default forms again: one interface's counters wrap, then the interface is replaced by another one (the number of
         # interfaces stays the same), then it is created again: a re-created interface reports exactly the kernel's counters
@@ -248,6 +282,8 @@ def build_cases(thorough):
             for c in (sets if thorough else sets[:3]):
                 for pf in (False, True):
                     cases.append(("net-seq", [(a, pf), (b, False), (c, pf)]))
+    cases.append(("net-many", 600))
+    cases.append(("disk-many", 500))
     for a, b in (("ppp0", "ppp1"), ("eth0:1", "eth0"), ("wlp0s20f3", "a.b")):
         cases.append(("net-swap", a, b))
     dsets = [(), ("sda",), ("sda", "sdb"), ("sdb",), ("sda", "sdb", "sdc")]
